@@ -388,7 +388,7 @@ def lit_for(v, u):
 def check(ctx):
     rng = ctx.rng
     trees = list(CORPUS)
-    for _ in range(2500 if ctx.thorough else 350):
+    for _ in range(1500 if ctx.thorough else 250):
         trees.append(gen_tree(rng, rng.randint(1, 5 if ctx.thorough else 4), rng.choice([0.0, 0.0, 0.25])))
     # specification values first (needed for the probes)
     spec0 = ctx.driver("C26", ["spec " + proto_tree(t) for t in trees])
